@@ -410,6 +410,7 @@ package parser
 //@   tags C16 C04 C03 C11
 //@   requires delimited: len(s) >= 2
 //@   requires[C11] text: aligned(s) && s[0] < 128 && s[len(s) - 1] < 128
+//@   ensures[C16] plain: (forall k Int :: {byteOf(s, k)} 1 <= k && k < len(s) - 1 ==> byteOf(s, k) != 92) ==> result1 == nil && isType(result0, "*github.com/woodsbury/jmespath/internal/parser.StringNode") && as(result0, "parser.StringNode").Value == s[1:len(s) - 1]
 //@   ensures[C16] shrinks: result1 == nil && isType(result0, "*github.com/woodsbury/jmespath/internal/parser.StringNode") ==> len(as(result0, "parser.StringNode").Value) <= len(s) - 2
 //@   loop 1
 //@     invariant len(v) >= 1
@@ -537,6 +538,7 @@ package parser
 //@   requires delimited: len(s) >= 2
 //@   requires[C11] text: aligned(s) && s[0] < 128 && s[len(s) - 1] < 128
 //@   ensures[C11] text: result1 == nil ==> aligned(result0)
+//@   ensures[C16] plain: (forall k Int :: {byteOf(s, k)} 1 <= k && k < len(s) - 1 ==> byteOf(s, k) != 92) ==> result1 == nil && result0 == s[1:len(s) - 1]
 //@   note it_str is the string the loop ranges over (v[1:5], v[2:6]); in loop 3 the two bytes in front of it are the `\u` of the second escape
 //@   loop 1
 //@     invariant len(v) >= 1
